@@ -339,7 +339,9 @@ class World(object):
         c.phase = "losing"
         if self.live.get(c.a) is c:
             del self.live[c.a]
-        self.ev("lost", conn=c.idx, a=c.a, reason=type(reason.value).__name__, rid=id(reason))
+        self.ev("lost", conn=c.idx, a=c.a, reason=type(reason.value).__name__, rid=id(reason), clean=c.clean)
+        if c.clean:
+            self.shadow[c.a].clear_session()     # a clean session ends with its network connection
         c.loss_reason = reason
         try:
             c.proto.connectionLost(reason)
@@ -881,7 +883,7 @@ class World(object):
                "topic": self._topic(tkind, tok), "id": ident,
                "payload": b"~%06d~" % tok + b"i" * size}
         c = self.live.get(a)
-        if self._send(a, pkt) and qos == 2 and c is not None and c.connack_ok:
+        if self._send(a, pkt) and qos == 2 and c is not None and c.connack_ok and not (c.clean and c.phase != "open"):
             sh.inq2.setdefault(ident, "sent")
             sh.inq2_pkt[ident] = pkt
 
